@@ -79,13 +79,17 @@ CLAIMED = {
         "technique": "Coq proof (program equivalence for all fuels/answers + fd balance) + runs on real hidepid/subset procfs instances + trace replay",
     },
     "C09": {
-        "text": "Machine-checked theorems over all kernel answers: reopen with creation flags never succeeds; the magic-link name is "
+        "text": "Machine-checked: C09_reopen_same_object -- Handle::reopen as a program, executed on the static kernel model (tree + procfs) for a "
+                "descriptor open on any non-symlink object and any accepted flags that fit it, returns a NEW descriptor open on the SAME "
+                "object and leaves the descriptor table otherwise exactly as it was (procfs handle resolving with openat2). "
+                "Over all kernel answers: reopen with creation flags never succeeds; the magic-link name is "
                 "fd/<decimal> for every descriptor >= 0 (0 included); the only possibly-following open is the verified one; the "
                 "descriptor table is balanced. Runtime: 9 handle kinds x rename/replace/unlink histories x flag sets x descriptor "
                 "numbers {0,1,2,3,64,1023} x both feature sets, Rust and C API, threads with a private descriptor table; oracle: "
                 "(dev,ino) identity, F_GETFL/FD_CLOEXEC, and the kernel's own raw reopen of /proc/self/fd/N.",
-        "note": COMMON_NOTE + "That /proc/<tid>/fd/N denotes the open file description itself is the kernel's contract (exercised, "
-                "not proved). Over-mounted host /proc is exercised by C06's runs.",
+        "note": COMMON_NOTE + "That /proc/<tid>/fd/N denotes the open file description itself is the kernel's contract: in the static "
+                "kernel model it is the definition of the follow-open (tied to recorded real answers of reopen's calls, T2'), under "
+                "rename/replace/unlink histories it is exercised by the runtime oracle. Over-mounted host /proc is exercised by C06's runs.",
         "technique": "Coq proof (all responses) + differential against the kernel's raw reopen + trace replay",
     },
     "C16": {
